@@ -588,6 +588,69 @@ def check(rep, prog, fn):
                 rep.violation('R13g', x, fn, whatg, 'the loop reads %s() but removes with %s(): with two or more waiting vertices the same vertex is processed again (its '
                               'neighbours\' live degrees are decremented twice, a vertex with two live neighbours is discarded and a cycle survives) and another one is '
                               'dropped unprocessed' % (x.callee['name'], pops[0].callee['name']), key='R13g|%s|%s' % (fn.g, x.callee['name']))
+    # ------------------------------------------------------------------ R13j: every vertex that survives the clean-up enters the heap
+    whatj = 'every vertex still live after the clean-up is put on the heap (a live vertex has >= 2 live neighbours and may lie on a cycle)'
+    for hp in [x for x in m.nodes if x.k == 'CXXMemberCallExpr' and x.callee and x.callee['name'] in ('push', 'emplace') and m.heap is not None and
+               ex.var_of(x.object_arg()) == m.heap and x.args()]:
+        lp = hp.enclosing(*LOOPS)
+        if lp is None or any(lp.is_ancestor_of(n_) for (n_, _v) in emits):
+            continue
+        hv = ex.var_of(hp.args()[0])
+        degleaves = {}
+
+        def atomize_j(leaf):
+            s_ = leaf.strip_all()
+            la_ = m.live_atom(leaf, hv)
+            if la_ is not None:
+                return la_
+            if s_.k == 'BinaryOperator' and s_.op in ('<', '<=', '>', '>=', '==', '!='):
+                l, r, op = s_.c[0].strip_all(), s_.c[1].strip_all(), s_.op
+                if l.cv is not None and r.cv is None:
+                    l, r = r, l
+                    op = {'<': '>', '>': '<', '<=': '>=', '>=': '<='}.get(op, op)
+
+                def is_degree(e, depth=0):
+                    e = e.strip_all()
+                    if e.k == 'CallExpr' and e.callee and e.callee['g'] in ('boost::out_degree', 'boost::degree') and e.args() and ex.var_of(e.args()[0]) == hv:
+                        return True
+                    ta_ = m.table_access(e)
+                    if ta_ and ta_[0] == m.degree_t and ta_[1] == hv:
+                        return True
+                    v_ = ex.var_of(e)
+                    d_ = ex.unique_def(fn, v_) if v_ is not None and depth < 2 else None
+                    return d_ is not None and is_degree(d_, depth + 1)
+                if r.cv is not None and is_degree(l):
+                    import operator
+                    f_ = {'<': operator.lt, '<=': operator.le, '>': operator.gt, '>=': operator.ge, '==': operator.eq, '!=': operator.ne}[op]
+                    c_ = r.cv
+                    degleaves[('deg', leaf.i)] = lambda dg, f_=f_, c_=c_: f_(dg, c_)
+                    return ex.f_atom(('deg', leaf.i))
+            return None
+        pc = guards_formula(fn.cfg, hp, atomize_j)
+        atoms = ex.f_atoms(pc)
+        def loop_header(a_):
+            # the condition of an enclosing loop (`vi != viend`): true whenever the body runs
+            if a_[0] != 'opaque':
+                return False
+            nd = fn.nodes[a_[1]]
+            return any(l_.cond is not None and (l_.cond is nd or l_.cond.is_ancestor_of(nd)) for l_ in hp.ancestors() if l_.k in LOOPS)
+        opaque = [a_ for a_ in atoms if isinstance(a_, tuple) and a_[0] in ('opaque', 'opaque-branch') and not loop_header(a_)]
+        if opaque:
+            rep.undecided('R13j', hp, fn, whatj, 'the push is guarded by `%s`, outside the idiom table' % (fn.nodes[opaque[0][1]].text(40) if opaque[0][0] == 'opaque' else 'a branch'))
+            continue
+        badd = None
+        for dg in (2, 3, 4, 5, 9):
+            envj = {'live': True}
+            envj.update({a_: True for a_ in atoms if isinstance(a_, tuple) and a_[0] == 'opaque'})
+            envj.update({a_: bool(t_(dg)) for a_, t_ in degleaves.items()})
+            if not ex.f_eval(pc, {a_: envj.get(a_, False) for a_ in atoms}):
+                badd = dg
+                break
+        if badd is not None:
+            rep.violation('R13j', hp, fn, whatj, 'a live vertex of degree %d is not put on the heap: it is never emitted and never discarded, so a component in which every '
+                          'vertex looks like that (a bare polygon for degree 2) keeps its cycle' % badd, key='R13j|%s|heap-fill' % fn.g)
+        else:
+            rep.ok('R13j', hp, fn, whatj, 'pushed for every live vertex (degrees 2, 3, 4, 5, 9)')
     # ------------------------------------------------------------------ R13e: the emission loop runs while anything can still lie on a cycle
     for (n, v) in emits:
         main = n.enclosing(*LOOPS)
@@ -810,6 +873,7 @@ def run(rep, tier):
     rep.rule('R13g', 'the vertex read from the discard queue / heap is the one removed from it', floor=3)
     rep.rule('R13e', 'the emission loop does not stop while three or more heap entries remain', floor=1)
     rep.rule('R13f', 'no early exit between the clean-up and the emission loop', floor=0)
+    rep.rule('R13j', 'every vertex live after the clean-up enters the heap', floor=1)
     rep.rule('R13a', 'initialisation of liveness and live degree', floor=1)
     rep.rule('R13b', 'discard threshold: queued iff live degree <= 1', floor=4)
     rep.rule('R13c', 'neighbour updates after every removal (three sibling loops)', floor=6)
